@@ -1,15 +1,19 @@
 package main
 
 import (
+	"context"
 	"fmt"
 	"net/url"
 	"strings"
 
+	"github.com/aperturerobotics/bifrost/crypto"
 	bifrost_http "github.com/aperturerobotics/bifrost/http"
 	"github.com/aperturerobotics/bifrost/link"
 	link_solicit "github.com/aperturerobotics/bifrost/link/solicit"
 	"github.com/aperturerobotics/bifrost/peer"
 	"github.com/aperturerobotics/bifrost/protocol"
+	"github.com/aperturerobotics/bifrost/pubsub"
+	"github.com/aperturerobotics/bifrost/router"
 	bifrost_rpc "github.com/aperturerobotics/bifrost/rpc"
 	"github.com/aperturerobotics/bifrost/signaling"
 	"github.com/aperturerobotics/bifrost/tptaddr"
@@ -34,7 +38,28 @@ type dirKind struct {
 	name   string
 	fields [][]param // universe per field, in Go struct order
 	build  func(p []param) directive.Directive
+	// neverMerge: the directive type is never de-duplicated by design (its IsEquivalent is
+	// `return false`): "separates two identical requests" is not a violation of the property
+	// (which only forbids merging different requests)
+	neverMerge bool
 }
+
+// fakeSession is a signaling.SignalPeerSession identified by its address.
+type fakeSession struct{ local, remote peer.ID }
+
+func (s *fakeSession) GetLocalPeerID() peer.ID                    { return s.local }
+func (s *fakeSession) GetRemotePeerID() peer.ID                   { return s.remote }
+func (s *fakeSession) Send(ctx context.Context, msg []byte) error { return nil }
+func (s *fakeSession) Recv(ctx context.Context) ([]byte, error)   { return nil, nil }
+
+// fakeKey is a crypto.PrivKey identified by its address.
+type fakeKey struct{ n byte }
+
+func (k *fakeKey) Equals(o crypto.Key) bool    { ok, is := o.(*fakeKey); return is && ok.n == k.n }
+func (k *fakeKey) Raw() ([]byte, error)        { return []byte{k.n}, nil }
+func (k *fakeKey) Type() crypto.KeyType        { return crypto.KeyType_Ed25519 }
+func (k *fakeKey) Sign([]byte) ([]byte, error) { return nil, nil }
+func (k *fakeKey) GetPublic() crypto.PubKey    { return nil }
 
 func strParams(vals ...string) []param {
 	var out []param
@@ -53,7 +78,7 @@ func u64Params(vals ...uint64) []param {
 }
 
 func (e *engine) runC37() {
-	e.rep.Rule = "for each of the 11 directive types: all ordered pairs over the product of a 2–5-value universe per constructor parameter (peer IDs: none/P1/P2; strings: empty/x/y; transport IDs 0/1/2; DialerOpts: nil / empty / address x / address x with backoff / address y; URLs: six parsed URLs differing in path, query, host, escaping) against the real IsEquivalent; the URL's String() is computed with net/url directly; distinct = distinct op line"
+	e.rep.Rule = "for each of the 14 directive types (every IsEquivalent implementation of the repository): all ordered pairs over the product of a 2–5-value universe per constructor parameter (peer IDs: none/P1/P2; strings: empty/x/y; transport IDs 0/1/2; DialerOpts: nil / empty / address x / address x with backoff / address y; URLs: six parsed URLs differing in path, query, host, escaping) ; sessions: nil / s1 / s2 / s3 = another object with the peers of s1; private keys: nil / k1 / k2 / k3 = another object with the bytes of k1) against the real IsEquivalent; the URL's String() is computed with net/url directly; plus the cross-type sweep: three instances of every type against three of every OTHER type (all ordered pairs of different types), which must never be equivalent; distinct = distinct op line"
 	p1, p2 := mkPeer(1), mkPeer(101)
 	peers := strParams("", p1.id, p2.id)
 	strs := strParams("", "x", "y")
@@ -77,6 +102,21 @@ func (e *engine) runC37() {
 		{enc: "o:" + hx("x") + ":1", class: "addr:x", v: &dialer.DialerOpts{Address: "x", Backoff: &backoff.Backoff{BackoffKind: backoff.BackoffKind_BackoffKind_CONSTANT}}},
 		{enc: "o:" + hx("y") + ":0", class: "addr:y", v: &dialer.DialerOpts{Address: "y"}},
 	}
+	// interface-typed parameters are identified by the Go object (0 = nil interface)
+	s1, s2, s3 := &fakeSession{peer.ID(p1.id), peer.ID(p2.id)}, &fakeSession{peer.ID(p2.id), peer.ID(p1.id)}, &fakeSession{peer.ID(p1.id), peer.ID(p2.id)}
+	sessions := []param{
+		{enc: "0", class: "sess:0", v: signaling.SignalPeerSession(nil)},
+		{enc: "1", class: "sess:1", v: signaling.SignalPeerSession(s1)},
+		{enc: "2", class: "sess:2", v: signaling.SignalPeerSession(s2)},
+		{enc: "3", class: "sess:3", v: signaling.SignalPeerSession(s3)},
+	}
+	k1, k2, k3 := &fakeKey{1}, &fakeKey{2}, &fakeKey{1}
+	keys := []param{
+		{enc: "0", class: "key:0", v: crypto.PrivKey(nil)},
+		{enc: "1", class: "key:1", v: crypto.PrivKey(k1)},
+		{enc: "2", class: "key:2", v: crypto.PrivKey(k2)},
+		{enc: "3", class: "key:3", v: crypto.PrivKey(k3)},
+	}
 	kinds := []dirKind{
 		{"SolicitProtocol", [][]param{strParams("p/a", "p/b"), strParams("", "c", "d"), peers, u64Params(0, 1, 2)}, func(p []param) directive.Directive {
 			var ctx []byte
@@ -84,40 +124,61 @@ func (e *engine) runC37() {
 				ctx = []byte(s)
 			}
 			return link_solicit.NewSolicitProtocol(protocol.ID(p[0].v.(string)), ctx, peer.ID(p[2].v.(string)), p[3].v.(uint64))
-		}},
+		}, false},
 		{"EstablishLinkWithPeer", [][]param{peers, peers}, func(p []param) directive.Directive {
 			return link.NewEstablishLinkWithPeer(peer.ID(p[0].v.(string)), peer.ID(p[1].v.(string)))
-		}},
+		}, false},
 		{"HandleMountedStream", [][]param{strParams("", "p/a", "p/b"), peers, peers}, func(p []param) directive.Directive {
 			return link.NewHandleMountedStream(protocol.ID(p[0].v.(string)), peer.ID(p[1].v.(string)), peer.ID(p[2].v.(string)))
-		}},
+		}, false},
 		{"DialTptAddr", [][]param{dopts, peers, peers}, func(p []param) directive.Directive {
 			return tptaddr.NewDialTptAddr(p[0].v.(*dialer.DialerOpts), peer.ID(p[1].v.(string)), peer.ID(p[2].v.(string)))
-		}},
+		}, false},
 		{"LookupTptAddr", [][]param{peers}, func(p []param) directive.Directive {
 			return tptaddr.NewLookupTptAddr(peer.ID(p[0].v.(string)))
-		}},
+		}, false},
 		{"LookupTransport", [][]param{peers, u64Params(0, 1, 2)}, func(p []param) directive.Directive {
 			return transport.NewLookupTransport(peer.ID(p[0].v.(string)), p[1].v.(uint64))
-		}},
+		}, false},
 		{"LookupRpcService", [][]param{strs, strs}, func(p []param) directive.Directive {
 			return bifrost_rpc.NewLookupRpcService(p[0].v.(string), p[1].v.(string))
-		}},
+		}, false},
 		{"LookupRpcClient", [][]param{strs, strs}, func(p []param) directive.Directive {
 			return bifrost_rpc.NewLookupRpcClient(p[0].v.(string), p[1].v.(string))
-		}},
+		}, false},
 		{"LookupHTTPHandler", [][]param{strParams("", "GET", "POST"), urls, strs}, func(p []param) directive.Directive {
 			return bifrost_http.NewLookupHTTPHandler(p[0].v.(string), p[1].v.(*url.URL), p[2].v.(string))
-		}},
+		}, false},
 		{"SignalPeer", [][]param{strs, peers, peers}, func(p []param) directive.Directive {
 			return signaling.NewSignalPeer(p[0].v.(string), peer.ID(p[1].v.(string)), peer.ID(p[2].v.(string)))
-		}},
+		}, false},
 		{"GetPeer", [][]param{peers}, func(p []param) directive.Directive {
 			return peer.NewGetPeer(peer.ID(p[0].v.(string)))
-		}},
+		}, false},
+		{"HandleSignalPeer", [][]param{strs, sessions}, func(p []param) directive.Directive {
+			sess, _ := p[1].v.(signaling.SignalPeerSession)
+			return signaling.NewHandleSignalPeer(p[0].v.(string), sess)
+		}, false},
+		{"BuildChannelSubscription", [][]param{strs, keys}, func(p []param) directive.Directive {
+			k, _ := p[1].v.(crypto.PrivKey)
+			return pubsub.NewBuildChannelSubscription(p[0].v.(string), k)
+		}, true},
+		{"DiscoverRoutes", [][]param{strParams("", "p/a", "p/b"), peers, peers}, func(p []param) directive.Directive {
+			return router.NewDiscoverRoutesWithPeerIDs(protocol.ID(p[0].v.(string)), peer.ID(p[1].v.(string)), peer.ID(p[2].v.(string)))
+		}, false},
 	}
+	type inst struct {
+		kind string
+		enc  string
+		d    directive.Directive
+	}
+	var reps []inst
 	for _, k := range kinds {
-		e.rep.Require(k.name+".eq", k.name+".ne")
+		if k.neverMerge {
+			e.rep.Require(k.name + ".ne")
+		} else {
+			e.rep.Require(k.name+".eq", k.name+".ne")
+		}
 		// all parameter tuples
 		tuples := [][]param{nil}
 		for _, f := range k.fields {
@@ -147,6 +208,20 @@ func (e *engine) runC37() {
 		for i, t := range tuples {
 			dirs[i] = k.build(t)
 		}
+		// representatives for the cross-type sweep: the first tuple (all-empty / nil), the tuple of
+		// every field's second value (the values "x" / P1 / 1 that other types also use, so that a
+		// comparison reached across types would succeed), and the last tuple
+		mid := 0
+		for _, f := range k.fields {
+			ix := 1
+			if len(f) < 2 {
+				ix = 0
+			}
+			mid = mid*len(f) + ix
+		}
+		for _, ix := range []int{0, mid, len(tuples) - 1} {
+			reps = append(reps, inst{k.name, enc(tuples[ix]), dirs[ix]})
+		}
 		for i, ta := range tuples {
 			for j, tb := range tuples {
 				op := fmt.Sprintf("dispatch.iseq dir=%s a=%s b=%s", k.name, enc(ta), enc(tb))
@@ -167,7 +242,7 @@ func (e *engine) runC37() {
 					}
 					mon = fmt.Sprintf("%s.IsEquivalent merges two requests that differ in %s", k.name, strings.Join(diff, ", "))
 					key += ":" + k.name + "-merges-different"
-				} else if !eq && same {
+				} else if !eq && same && !k.neverMerge {
 					mon = fmt.Sprintf("%s.IsEquivalent separates two identical requests", k.name)
 					key += ":" + k.name + "-splits-equal"
 				}
@@ -177,6 +252,32 @@ func (e *engine) runC37() {
 				}
 				e.cmp(op, model, impl, br, key, mon)
 			}
+		}
+	}
+	// ---- cross-type sweep: directives of different types are never the same request ----
+	e.rep.Require("cross.ne")
+	for _, x := range reps {
+		for _, y := range reps {
+			if x.kind == y.kind {
+				continue
+			}
+			op := fmt.Sprintf("dispatch.iseqx ka=%s a=%s kb=%s b=%s", x.kind, x.enc, y.kind, y.enc)
+			model := e.m.Query(op)
+			var eq bool
+			impl := lib.Recover(func() string {
+				eq = x.d.(directive.DirectiveWithEquiv).IsEquivalent(y.d)
+				return "ok " + bit(eq)
+			})
+			mon, key := "", "dispatch.iseqx"
+			if eq {
+				mon = fmt.Sprintf("%s.IsEquivalent merges a %s request (%s) with a %s request (%s)", x.kind, x.kind, x.enc, y.kind, y.enc)
+				key += ":" + x.kind + "-merges-" + y.kind
+			}
+			br := "cross.ne"
+			if model == "ok 1" {
+				br = "cross.eq"
+			}
+			e.cmp(op, model, impl, br, key, mon)
 		}
 	}
 }
